@@ -240,6 +240,11 @@ func c18GenTree(r *core.Rand) *tree.Tree {
 			put(fmt.Sprintf("ws/t%02d", i), tree.File, "")
 		}
 	}
+	if r.P(1, 25) {
+		// a link whose target holds a component longer than NAME_MAX: a legal
+		// link text, it names nothing (the lookup fails with ENAMETOOLONG)
+		put(inDir(core.Pick(r, dirs), "lng"), tree.Symlink, core.Pick(r, []string{strings.Repeat("a", 300), "a/" + strings.Repeat("n", 256), "/" + strings.Repeat("x", 255) + "y/z"}))
+	}
 	if r.P(1, 6) { // a link to a directory with two files: the shared-prefix shape
 		put("t", tree.Dir, "")
 		put("t/x", tree.File, "")
@@ -283,6 +288,14 @@ func c18GenRequests(r *core.Rand, t *tree.Tree) []string {
 	// 37..43 links: the limit itself is part of what is explored
 	if e := t.Get("lq"); e != nil && e.Target == "q[1]" && r.P(3, 4) {
 		out = append(out, "lq")
+	}
+	for _, e := range t.Entries {
+		if e.Type == tree.Symlink && tree.Base(e.Path) == "lng" && r.P(3, 4) {
+			out = append(out, e.Path)
+		}
+	}
+	if r.P(1, 40) {
+		out = append(out, core.Pick(r, []string{strings.Repeat("q", 300), "a/" + strings.Repeat("q", 256) + "/x"}))
 	}
 	if e := t.Get("w/l20"); e != nil && e.Type == tree.Symlink && r.P(3, 4) {
 		out = append(out, core.Pick(r, []string{"w/*", "w/l*", "w/l??", "*/l*"}))
